@@ -176,6 +176,7 @@ var funcSpecs = []funcSpec{
 		opaque: map[string]string{"plugin.clientConnection": "χ", "exec.Cmd": "χ", "io.ReadCloser": "κ"}, stopAt: "err != nil", stopRet: []string{"cmd", "err"}},
 	{rel: "armor", name: "(*armoredWriter).Write", abstract: []string{"format.Write"}, opaque: armorWOpaque, threadedFields: armorWThreaded},
 	{rel: "armor", name: "(*armoredWriter).Close", abstract: []string{"format.Close", "format.LastLineIsEmpty"}, opaque: armorWOpaque, threadedFields: armorWThreaded},
+	{rel: "", name: "GenerateX25519Identity", abstract: []string{"curve25519.X25519"}, opaque: map[string]string{"tapeτ": "τ"}, tape: true},
 	{rel: "", name: "ParseRecipients", abstract: []string{"age.ParseX25519Recipient"}, opaque: map[string]string{"Recipient": "κ", "X25519Recipient": "κ"}, errInts: true},
 }
 
